@@ -26,10 +26,10 @@ Qed.
 (* ---------- assignment *)
 Lemma Sx_asg : forall cpp o l ra ta ka rb tb kb,
   Sx cpp ra ta ka -> Sx cpp rb tb kb ->
-  ka <= 13 -> kb <= 14 -> ender ra -> rb <> [] -> ra <> [] ->
+  ka <= 13 -> kb <= 14 -> ender2 ra -> rb <> [] -> ra <> [] ->
   Sx cpp (ra ++ (l, TOp (OAsg o)) :: rb) (B (l, TOp (OAsg o)) ta tb) 14.
 Proof.
-  intros cpp o l ra ta ka rb tb kb IHa IHb Hka Hkb Hend Hrb Hra f d s rest out n Hrk Hd Hn Hlen Hop Hps Hj Hnd Hq Hq14 Hc.
+  intros cpp o l ra ta ka rb tb kb IHa IHb Hka Hkb Hend Hrb Hra f d s rest out n Hrk Hd Hn Hlen Hop Hps Hj Hnd Hq Hq14 Hq1 Hc.
   set (op := (l, TOp (OAsg o))) in *.
   rewrite app_length in Hn. cbn [length] in Hn.
   rewrite <- app_assoc in *. cbn [app] in *.
@@ -62,6 +62,8 @@ Proof.
         rewrite <- rev_mid. apply Hq. lia.
       - intros E a0. unfold s1, sa, mkafter, set_asgn. cbn [bef asgn stk depth].
         rewrite <- rev_mid. apply Hq14. reflexivity.
+      - intros E a0. unfold s1, sa, mkafter, set_asgn. cbn [bef asgn stk depth].
+        rewrite <- rev_mid. apply Hq. lia.
       - unfold mkafter. apply cont_quiet; [exact Hkb|]. intros r Hr.
         unfold s1, sa, mkafter, set_asgn. cbn [bef asgn stk depth]. rewrite <- rev_mid.
         destruct (Nat.eq_dec r 14) as [->|Hne]; [apply Hq14; reflexivity|apply Hq; lia]. }
@@ -91,11 +93,12 @@ Proof.
   - apply (pstart_app_l _ ra (op :: rb) Hra). exact Hps.
   - reflexivity.
   - exact Hnd.
-  - intros r a0 Hr. apply quiet_asgop; [apply ender_aft; exact Hend|lia].
+  - intros r a0 Hr. apply quiet_asgop; [apply Hend|lia].
   - intros E. lia.
+  - intros E a0. apply quiet_asgop; [apply Hend|lia].
   - fold sa. unfold cont.
     assert (Hqa : forall r, r < 14 -> quiet cpp r (bef sa) (asgn sa) (op :: rb ++ rest)).
-    { intros r Hr. unfold sa, mkafter. cbn [bef asgn]. apply quiet_asgop; [apply ender_aft; exact Hend|exact Hr]. }
+    { intros r Hr. unfold sa, mkafter. cbn [bef asgn]. apply quiet_asgop; [apply Hend|exact Hr]. }
     unfold sa at 1, mkafter at 1. rewrite (Hqa ka) by lia.
     replace (d - ka) with ((14 - S ka) + S (d - 14)) by lia.
     rewrite climb_app. unfold mkafter.
@@ -110,7 +113,7 @@ Lemma Sx_comma : forall cpp l ra ta ka rb tb kb,
   ka <= 15 -> kb <= 14 -> rb <> [] -> ra <> [] ->
   Sx cpp (ra ++ (l, TComma) :: rb) (B (l, TComma) ta tb) 15.
 Proof.
-  intros cpp l ra ta ka rb tb kb IHa IHb Hka Hkb Hrb Hra f d s rest out n Hrk Hd Hn Hlen Hop Hps Hj Hnd Hq Hq14 Hc.
+  intros cpp l ra ta ka rb tb kb IHa IHb Hka Hkb Hrb Hra f d s rest out n Hrk Hd Hn Hlen Hop Hps Hj Hnd Hq Hq14 Hq1 Hc.
   set (op := (l, TComma)) in *.
   rewrite app_length in Hn. cbn [length] in Hn.
   rewrite <- app_assoc in *. cbn [app] in *.
@@ -138,6 +141,8 @@ Proof.
         rewrite <- app_assoc in H. cbn [app] in H. specialize (H Hnd).
         rewrite rev_app_distr in H. cbn [rev app] in H. exact H.
       - intros r a0 Hr. unfold s1, sa, mkafter. cbn [bef asgn].
+        rewrite <- rev_mid. apply Hq. lia.
+      - intros E a0. unfold s1, sa, mkafter. cbn [bef asgn].
         rewrite <- rev_mid. apply Hq. lia.
       - intros E a0. unfold s1, sa, mkafter. cbn [bef asgn].
         rewrite <- rev_mid. apply Hq. lia.
@@ -169,6 +174,7 @@ Proof.
   - reflexivity.
   - exact Hnd.
   - intros r a0 Hr. apply quiet_comma. lia.
+  - intros E a0. apply quiet_comma. lia.
   - intros E a0. apply quiet_comma. lia.
   - fold sa. unfold cont.
     destruct (Nat.eq_dec ka 15) as [->|Hne].
